@@ -18,6 +18,7 @@ type upHold struct {
 	entered chan struct{}
 	release chan struct{}
 	once    sync.Once
+	at      time.Time // when the worker entered the held call (valid once entered is closed)
 }
 
 var upHolds sync.Map // *Fixture -> *upHold
@@ -40,6 +41,21 @@ func (f *Fixture) WaitUpHeld(d time.Duration) bool {
 		return true
 	case <-time.After(d):
 		return false
+	}
+}
+
+// UpHeldFor is the time the worker has been sitting in the held call (0 when it is not there).
+func (f *Fixture) UpHeldFor() time.Duration {
+	v, ok := upHolds.Load(f)
+	if !ok {
+		return 0
+	}
+	h := v.(*upHold)
+	select {
+	case <-h.entered:
+		return time.Since(h.at)
+	default:
+		return 0
 	}
 }
 
@@ -69,6 +85,7 @@ func (a *Attempt) afterUpSend(end bool) {
 		return // already used
 	default:
 	}
+	h.at = time.Now()
 	close(h.entered)
 	select {
 	case <-h.release:
